@@ -18,7 +18,6 @@ import (
 	"encoding/json"
 	"fmt"
 	"strings"
-	"time"
 
 	"github.com/wader/fq/internal/verifharness/hlib"
 	"github.com/wader/fq/pkg/interp"
@@ -671,7 +670,7 @@ type sfn struct {
 	arity int
 }
 
-func (g *sgen) n(k int) int      { return g.r.Intn(k) }
+func (g *sgen) n(k int) int       { return g.r.Intn(k) }
 func (g *sgen) chance(p int) bool { return g.r.Intn(100) < p }
 func (g *sgen) pick(ss ...string) string {
 	return ss[g.r.Intn(len(ss))]
@@ -1123,31 +1122,4 @@ func (rn *runner) semReplay(f []string, line string) {
 	default:
 		bad()
 	}
-}
-
-// developer timing probe
-func devTiming() {
-	t0 := time.Now()
-	for i := 0; i < 6; i++ {
-		t1 := time.Now()
-		fqDirect("1 + 2 * 3", nil)
-		fmt.Println("  fqDirect:", time.Since(t1))
-	}
-	fmt.Println("fqDirect x6:", time.Since(t0))
-	t0 = time.Now()
-	ps := make([]string, 200)
-	ins := make([]any, 200)
-	for i := range ps {
-		ps[i] = "1 + 2 * 3"
-	}
-	fqThroughEval(ps, ins)
-	fmt.Println("throughEval x200:", time.Since(t0))
-	t0 = time.Now()
-	for i := 0; i < 5; i++ {
-		runMain(cliArgv("n", "1+1"), cliVFS(), nil)
-	}
-	fmt.Println("runMain x5:", time.Since(t0))
-	t0 = time.Now()
-	runMain([]string{"-n", "-i", "-c", replInputsExpr}, cliVFS(), []string{"1", "2", "3", "4", "5", "6", "7", "8", "9", "10"})
-	fmt.Println("repl 10 lines:", time.Since(t0))
 }
